@@ -23,6 +23,10 @@ Sub-check "sim"   one case = (simulator, product, simulation mode, maximum step,
                   DETERMINISTIC (fixed dates) or STOCHASTIC (jump times); maximum step eps in {T/4, T/2.5, 2T, T/5, T/10}
                   (T/5, T/10: gaps between the scripted jump times / to the maturity that are multiples of eps in decimal but
                   not in binary: 0.2 and 0.1 against 0.1, 0.5, 0.9, 1.0) and, for T = 0.9, {T/3 = 0.3, T/9 = 0.1, T/4}.
+    tiers         quick: 12 simulators (levy HEM/Merton, chain HEM/CGMY/HEM-bst, copula chain, coupling HEM/CGMY/HEM-bst/
+                  HEM-alias, copula coupling inversion/bsta; level 1) x {spot-1, spot-09, asian-y2, asian-m3} + 7 simulators
+                  (level-0 couplings 1-d / copula, engine route 1-d / copula, the three reinit models) x {spot-1, spot-09,
+                  asian-y2}; thorough: every simulator of c15_util.SIMS x all 8 products.
     oracle        t[0]=0 and both components 0 there; times non-decreasing (strictly where the scripted jump times differ),
                   last = maturity; fixed dates: times = product dates; jump times: times = {0} + scripted jump times + {T};
                   jump component: at every product date (fixed) / jump time the increment since the previous point is the
@@ -150,13 +154,14 @@ def cases(tier):
         prods = ["spot-1", "spot-05", "spot-09", "asian-y1", "asian-y2", "asian-m2", "asian-y3", "asian-m3"]
     else:
         sims = ["levy-hem", "levy-merton", "chain-hem", "chain-cgmy12", "copula-chain", "coupling-hem", "coupling-cgmy12",
-                "coupling-copula", "chain-hem-bst", "coupling-hem-bst", "coupling-hem-alias", "coupling-copula-bsta",
-                "coupling-hem-l0", "coupling-copula-l0", "coupling-hem-engine", "coupling-copula-engine",
-                "levy-merton-reinit", "chain-cgmy12-reinit", "coupling-hem-reinit"]
+                "coupling-copula", "chain-hem-bst", "coupling-hem-bst", "coupling-hem-alias", "coupling-copula-bsta"]
         prods = ["spot-1", "spot-09", "asian-y2", "asian-m3"]
+        # level-0 couplings, engine construction route and reinit models: 1 and 2 intervals in quick (3 in thorough)
+        short = ["coupling-hem-l0", "coupling-copula-l0", "coupling-hem-engine", "coupling-copula-engine",
+                 "levy-merton-reinit", "chain-cgmy12-reinit", "coupling-hem-reinit"]
     for prod in prods:
         n = _n_intervals(prod)
-        for sim in sims:
+        for sim in sims + (short if not thorough and n < 3 else []):
             out.append({"sub": "sim", "sim": sim, "prod": prod, "mode": "fixed", "eps": None})
             for counts in itertools.product((0, 1, 2), repeat=n):
                 out.append({"sub": "sim", "sim": sim, "prod": prod, "mode": "jump", "eps": None, "counts": list(counts)})
@@ -279,7 +284,7 @@ class _Kept:
                 changed = [f"unreadable ({e!r})"]
                 comp = "unreadable"
             if now is not None:
-                changed = [nm for nm, x, y in zip(self.NAMES, snap, now) if x.shape != y.shape or not np.array_equal(x, y)]
+                changed = [nm for nm, x, y in zip(self.NAMES, snap, now) if x.shape != y.shape or not np.array_equal(x, y, equal_nan=True)]
                 comp = changed[0] if changed else None
             if changed:
                 d = self.d
@@ -290,7 +295,7 @@ class _Kept:
                         f"carries its own {comp} after {op} on the same simulator",
                         {"path": label, "operation": op, "before": list(snap), "after": None if now is None else list(now)})
                 self.sh.outcome((d.sim, self.mode, "kept-path-changed", op, comp))
-                self.items.remove(item)
+                self.items = [x for x in self.items if x is not item]
 
 
 def _other_object(sh, d, mode, n, kept):
